@@ -59,6 +59,9 @@ def finish_worker(ctx):
 
 def make_case(ctx, idx):
     r = case_rng(ctx.seed, ID, idx)
+    if r.random() < 0.04:
+        # a document without any record (only declarations): its serialisations are valid texts as well
+        return {"ops": [["ns", "D", p, u] for p, u in rdfspace.NS[: r.randint(0, 3)]]}
     return {"ops": rdfspace.program(r, non_ascii=True, max_records=4)}
 
 
